@@ -49,7 +49,14 @@ func NewFReader(fn string) FReader {
 	return FReader{r: r, b: b}
 }
 
-func (f FReader) read() (string, error) { return f.b.ReadString('\n') }
+// read returns the next line without its line break, like the readline reader does.
+func (f FReader) read() (string, error) {
+	line, err := f.b.ReadString('\n')
+	if err == io.EOF && line != "" {
+		err = nil // the last line of the file has no line break
+	}
+	return strings.TrimSuffix(line, "\n"), err
+}
 
 func (f FReader) Close() error { return f.r.Close() }
 
